@@ -43,6 +43,7 @@ class Schedule:
     def __init__(self, keys: List[List[int]]):
         self.keys = [list(k) for k in keys]
         self.calls = 0
+        self.ordered_calls = 0  # map/imap: tasks run on pickled copies, results delivered in submission order
         self.used: List[List[int]] = []
         self.nontrivial = False
 
@@ -89,6 +90,7 @@ def make_pool_class(schedule: Schedule):
             return out
 
         def map(self, func, iterable, chunksize=None):
+            schedule.ordered_calls += 1
             res = self._run(func, iterable)
             for r in res:
                 if isinstance(r, _Raised):
@@ -96,6 +98,7 @@ def make_pool_class(schedule: Schedule):
             return res
 
         def imap(self, func, iterable, chunksize=1):
+            schedule.ordered_calls += 1
             return _Iter(self._run(func, iterable))
 
         def imap_unordered(self, func, iterable, chunksize=1):
